@@ -126,6 +126,15 @@ pub fn via_builder(f: &FactSet, interleave: Option<&mut Rng>, defaults: bool) ->
         }
     }
     if let Some(rng) = interleave {
+        // registering a record that is (or will be) annotated as well is documented to be harmless
+        // ("adds the gene/disease" only if it does not exist yet): sprinkle such calls in
+        for k in 0..3 {
+            for (i, r) in f.recs[k].iter().enumerate() {
+                if !r.terms.is_empty() && rng.chance(1, 4) {
+                    calls.push((k, i, None));
+                }
+            }
+        }
         rng.shuffle(&mut calls);
     }
     flatten(guard(|| -> Result<Ontology, String> {
@@ -198,8 +207,11 @@ pub fn as_bytes(ont: &Ontology) -> Result<Vec<u8>, PanicInfo> {
 static DIR_COUNTER: AtomicU64 = AtomicU64::new(0);
 
 pub fn work_root() -> PathBuf {
-    let root = std::env::var("VERIF_WORK").unwrap_or_else(|_| "/verif/work".to_string());
-    PathBuf::from(root)
+    if let Ok(w) = std::env::var("VERIF_WORK") {
+        return PathBuf::from(w);
+    }
+    let root = std::env::var("VERIF_ROOT").unwrap_or_else(|_| "/verif".to_string());
+    PathBuf::from(root).join("work")
 }
 
 pub fn scratch_dir(tag: &str) -> PathBuf {
